@@ -29,7 +29,7 @@ ASSUMPTIONS = [
 ]
 DECIDING = ['btpu.agent:Agent._send_transfer', 'btpu.agent:Agent._recv_msg', 'btpu.messages:MessageHead.self_build',
             'btpu.messages:MessageHead.extract_padding', 'btpu.agent:Agent._process_tx_queue']
-REQUIRED_OBS = ['codec_sets', 'sends', 'segmented_sends', 'segments_checked', 'receive_histories', 'interleaved_histories', 'number_reused_later_histories', 'fileobj_sends']
+REQUIRED_OBS = ['codec_sets', 'sends', 'segmented_sends', 'segments_checked', 'receive_histories', 'interleaved_histories', 'number_reused_later_histories', 'fileobj_sends', 'multi_message_frames']
 
 IF_NAME = 'veth0'
 LOCAL_MAC = 'aa-bb-cc-00-00-01'
@@ -184,7 +184,8 @@ def check_receive(arrivals, originals, obs):
                 err = node.sim.world.callback_errors[0]
                 problems.append('arrival %d: callback %s raised %s: %s' % (step, err.source, err.exc_type, str(err.exc)[:80]))
                 break
-            got_idx[key].add(idx)
+            for (pkey, pidx) in (idx if key == 'multi' else [(key, idx)]):
+                got_idx[pkey].add(pidx)
             new = [tid for tid in node.queue() if tid not in before]
             for tid in new:
                 data = bytes(node.call('recv_bundle_pop_data', tid))
@@ -504,10 +505,23 @@ def run_case(case):
                         rng.shuffle(order)
                     arrivals += [(key2, idx, payloads[idx], peer) for idx in order]
                     obs['reused_transfer_numbers'] = obs.get('reused_transfer_numbers', 0) + 1
+            if len(originals) >= 2 and rng.random() < 0.6:
+                # one peer may put messages of several transfers into one frame: neighbours from the same peer are merged (the second
+                # message of such a frame is handled like any other, whatever the first one did)
+                merged = []
+                for arr in arrivals:
+                    last = merged[-1] if merged else None
+                    if last is not None and last[3] == arr[3] and rng.random() < 0.5:
+                        parts = (last[1] if last[0] == 'multi' else [(last[0], last[1])]) + [(arr[0], arr[1])]
+                        merged[-1] = ('multi', parts, last[2] + arr[2], arr[3])
+                        obs['multi_message_frames'] = obs.get('multi_message_frames', 0) + 1
+                    else:
+                        merged.append(arr)
+                arrivals = merged
             if len(originals) >= 2:
                 obs['interleaved_histories'] += 1
                 note(check_receive(arrivals, originals, obs), 'interleaved', dict(transfers=len(originals), frames=len(arrivals)),
-                     'inter|%s' % hash(tuple((a[0], a[1]) for a in arrivals)))
+                     'inter|%s' % hash(tuple((a[0], repr(a[1])) for a in arrivals)))
     uniq = {}
     for viol in violations:
         uniq.setdefault((viol['key'], viol['what'][:70]), viol)
